@@ -206,6 +206,26 @@ def _run_scenario(sc, fault, env, res):
                     break
             it.close()
             after_close_checks(it)
+        elif kind == "ctor_fails":
+            # the iterator cannot even be set up (a frame cache that cannot be allocated, after
+            # the size was validated and the render data created): there is no iterator to close, so whatever was created for it must
+            # be finalized when the failure reaches the caller
+            from term_image.padding import ExactPadding as _EP
+
+            class Refusing(_EP):
+                def _get_exact_dimensions_(self, render_size):
+                    raise ValueError("the render does not fit this box")
+
+            how = "cache"
+            try:
+                big = type(subj)(2**63, 1, sc["size"], "text")
+                RenderIterator(big, None, _EP(), sc["loops"], True)
+                errs.append("an iterator that cannot be set up was constructed (%s)" % how)
+            except (ValueError, OverflowError, MemoryError) as e:
+                for tok, rd_ in zip(S.created, S.held):
+                    if not rd_.finalized:
+                        errs.append("render data #%d not finalized when the failed construction (%s: %s) reached the caller; only the garbage collector would do it" % (S.created.index(tok), how, type(e).__name__))
+                rd_ = None
         elif kind == "from_data_reuse":
             # data that has been finalized (its owning iterator ended, one way or another)
             # is offered to a second iterator: to be refused, whoever would own it -- no
@@ -332,7 +352,7 @@ def _run_scenario(sc, fault, env, res):
 
 
 def gen_scenario(rnd):
-    kind = rnd.choice(["str", "render", "draw_still", "draw_anim", "draw_anim", "iter_dunder", "iter_full", "iter_close", "iter_drop", "iter_seek", "from_data_own", "from_data_keep", "from_data_reuse", "iter_reentrant_close", "two_iters", "two_iters"])
+    kind = rnd.choice(["str", "render", "draw_still", "draw_anim", "draw_anim", "iter_dunder", "iter_full", "iter_close", "iter_drop", "iter_seek", "from_data_own", "from_data_keep", "from_data_reuse", "ctor_fails", "iter_reentrant_close", "two_iters", "two_iters"])
     sc = dict(kind=kind, size=[rnd.randint(1, 4), rnd.randint(1, 3)], loops=rnd.choice([1, 2, 3]), cache=rnd.choice([False, True, 2, 100]), steps=rnd.randint(0, 8), seeks=[rnd.randint(0, 5) for _ in range(4)])
     if kind in ("str", "render", "draw_still") and rnd.random() < 0.5:
         sc["n"] = 1
